@@ -188,8 +188,15 @@ def rule_privacy(facts):
     b = pat.body_of(facts, "DecoderState::decode_literal")
     if b is not None:
         r.sites += 1
-        if any(blk.term.callee is not None and blk.term.callee.method == "last_n" for blk in b.calls()):
-            r.ok("call", {"decode_literal": "matched byte read through last_n"})
+        lns = [blk for blk in b.calls() if blk.term.callee is not None and blk.term.callee.method == "last_n"]
+        tmb = Terms(b)
+        prop = all(any((flow.declared(x.term) or "").endswith("Try::branch") and x.term.args and
+                       (lambda t_: t_[0] == "call" and len(t_) > 3 and t_[3] == ln.idx)(tmb.of_operand(x.term.args[0])) for x in b.calls()) for ln in lns)
+        if lns and prop:
+            r.ok("call", {"decode_literal": "matched byte read through last_n, its error propagated with `?`"})
+        elif lns:
+            r.bad("decode_literal|last_n-error", "the guard's verdict is discarded: the result of last_n is not propagated with `?` (a rejected "
+                  "distance is replaced by a made-up byte)", pat.where(b, lns[0].idx))
         else:
             r.bad("decode_literal|last_n", "the matched-literal byte is not read through the guarded last_n", pat.where(b))
     # nothing outside lzbuffer.rs mentions the buf field of a window
@@ -305,7 +312,8 @@ def rule_dict_size(facts):
 def run(ctx, t0):
     facts = ctx.facts()
     pat.FACTS = facts
-    rules = [rule_dict_size(facts), rule_reset(facts), rule_guards(facts), rule_privacy(facts), rule_offsets(facts)]
+    from rules import C01 as _c01
+    rules = [rule_dict_size(facts), _c01.rule_window_size(facts, "C09.R5b"), rule_reset(facts), rule_guards(facts), rule_privacy(facts), rule_offsets(facts)]
     expl = ("Static: for each implementor of the window trait (enumerated from the impl list) the distance guards are "
             "located by the provenance of their operands, their failing edges must reach Err only and they must "
             "dominate every buffer access and append of the function; field privacy shows the module is the only "
